@@ -235,15 +235,11 @@ theorem upgradeTLS_reader_from_tls_only :
        "assign c.Reader = bufio.NewReaderSize(c.tlsConn, defaultBufferSize)",
        "assign c.Writer = bufio.NewWriterSize(c.tlsConn, c.OutputBufferSize)"] := by decide
 
-/-- two shapes of the WRITER line: before / with fix F30 (`sw := snappy.NewWriter(conn)` is kept in `outputDest`;
-the statement `sw := …` matches none of the tracked patterns). The reader line — what this fact is about — is
-the same in both. Integrator: once F30 is committed, drop the first disjunct (audit B12). -/
+/-- the WRITER line is the one of fix F30 (/repo d6aa4e3, committed: `sw := snappy.NewWriter(conn)` is kept in
+`outputDest`; the statement `sw := …` matches none of the tracked patterns); the pre-F30 line
+(`bufio.NewWriterSize(snappy.NewWriter(conn), …)`) is no longer accepted (audit B12). The reader line — what this
+fact is about — was the same in both. -/
 theorem upgradeSnappy_reader_from_conn_only :
-    upgradeSnappyStreams =
-      ["assign conn := c.Conn",
-       "assign conn = c.tlsConn",
-       "assign c.Reader = bufio.NewReaderSize(snappy.NewReader(conn), defaultBufferSize)",
-       "assign c.Writer = bufio.NewWriterSize(snappy.NewWriter(conn), c.OutputBufferSize)"] ∨
     upgradeSnappyStreams =
       ["assign conn := c.Conn",
        "assign conn = c.tlsConn",
